@@ -125,8 +125,22 @@ def cmp_dense(c, o, m):
     return None
 
 
+def _axis_permuting(c):
+    """SliceProjectionOp with a rotation given by a quaternion whose matrix is a signed permutation other than a diagonal one: the
+    configuration of open finding KF-C20-1 (NaN rows / halved borders of the projection matrix)"""
+    q = np.array(c['quat'], dtype=np.float64)
+    if not np.linalg.norm(q):
+        return False
+    x, y, z, w = q / np.linalg.norm(q)
+    m = np.array([[1 - 2 * (y * y + z * z), 2 * (x * y - z * w), 2 * (x * z + y * w)], [2 * (x * y + z * w), 1 - 2 * (x * x + z * z), 2 * (y * z - x * w)],
+                  [2 * (x * z - y * w), 2 * (y * z + x * w), 1 - 2 * (x * x + y * y)]])
+    return bool(np.all(np.minimum(np.abs(m), np.abs(np.abs(m) - 1)) < 1e-9) and not np.allclose(np.abs(m), np.eye(3)))
+
+
 def descr(c):
     d = {k: v for k, v in c.items() if isinstance(v, (str, int, bool, float))}
+    if c.get('cls') == 'SliceProjectionOp' and c.get('rot') == 'quat':
+        d['axis_permuting'] = _axis_permuting(c)
     if c.get('cls') == 'WaveletOp':
         import pywt
         d['wavelet_ndim'] = len(c['domain'])
